@@ -3,17 +3,20 @@
 (* every interleaving of calls, and generator of API histories (B1): the    *)
 (* history variable is printed as JSON when it reaches HLEN operations.     *)
 EXTENDS RouterApi, Json
-CONSTANTS HLEN, MAXSTEPS
+CONSTANTS HLEN, MAXSTEPS,
+          PACE      \* 0: unrestricted; k > 0: sampling schedule -- with transactions on, every k-th call is processTransaction()
 VARIABLE hist
 RectCat == {<<2, 2, 6, 6>>, <<4, 4, 8, 10>>, <<8, 2, 12, 6>>, <<2, 8, 10, 12>>, <<6, 6, 8, 8>>}
 Moves   == {<<2, 0>>, <<-2, 0>>, <<0, 2>>, <<0, -4>>, <<4, 4>>}
-PtCat   == {<<1, 1>>, <<13, 13>>, <<7, 1>>, <<1, 7>>, <<9, 7>>}
+PtCat   == {<<13, 13>>, <<1, 7>>, <<7, 1>>}
 Init == /\ scene = [s \in ShapeIds |-> NoRect] /\ own = [s \in ShapeIds |-> NoRect] /\ want = [s \in ShapeIds |-> NoRect]
         /\ ends = [c \in ConnIds |-> IF c = 1 THEN <<<<1, 7>>, <<13, 7>>>> ELSE <<<<7, 1>>, <<7, 13>>>>] /\ wantEnds = ends
         /\ queue = <<>> /\ txn = TRUE /\ steps = 0 /\ am = [s \in ShapeIds |-> 0] /\ hist = <<>>
 Op(o) == hist' = Append(hist, o)
+Paced == PACE > 0 /\ txn /\ Len(hist) % PACE = PACE - 1
 Next == /\ Len(hist) < HLEN /\ steps < MAXSTEPS
-        /\ \/ \E s \in ShapeIds, r \in RectCat : AddShape(s, r) /\ Op(<<1, s, r[1], r[2], r[3], r[4]>>)
+        /\ IF Paced THEN Process /\ Op(<<5>>) ELSE
+           \/ \E s \in ShapeIds, r \in RectCat : AddShape(s, r) /\ Op(<<1, s, r[1], r[2], r[3], r[4]>>)
            \/ \E s \in ShapeIds, d \in Moves : MoveRel(s, d) /\ Op(<<2, s, d[1], d[2]>>)
            \/ \E s \in ShapeIds : DeleteShape(s) /\ Op(<<3, s>>)
            \/ \E c \in ConnIds, e \in 1..2, p \in PtCat : MoveEnd(c, e, p) /\ Op(<<4, c, e - 1, p[1], p[2]>>)
